@@ -5,6 +5,7 @@ package interp
 // the trusted base of the checks that hit it (recorded in Result.Stubs).
 
 import (
+	"github.com/bmatcuk/doublestar/v4"
 	"reflect"
 	"gopkg.in/yaml.v3"
 	"encoding/json"
@@ -1036,6 +1037,10 @@ func init() {
 		np := i.fromNative(reflect.ValueOf(&n), pt).(*value)
 		*ptr = *np
 		return iface{}
+	})
+
+	reg("github.com/bmatcuk/doublestar/v4.MatchUnvalidated", func(fr *frame, a []value) value {
+		return doublestar.MatchUnvalidated(mustString(a[0], "doublestar pattern"), mustString(a[1], "doublestar name"))
 	})
 
 	reg("encoding/json.Unmarshal", func(fr *frame, a []value) value {
